@@ -82,6 +82,17 @@ def Abort.show : Abort → String
   | .unknownFd fd => s!"PANIC(unknown-fd {fd})"
   | .connPanic p => s!"PANIC({p.show})"
 
+/-- driver-side kernel stand-in for `flush`: the socket accepts `budget` more bytes, then the write fails
+    (EAGAIN is a failure for `try_write`); a dead peer fails at once -/
+def budgetScript : Nat → Client → Nat → Bool → List SinkStep
+  | 0, _, _, _ => []
+  | fuel + 1, c, budget, dead =>
+    if c.state ≠ .awaitingOut then []
+    else
+      let step : SinkStep := if dead || budget = 0 then .fail else .accept budget
+      let (c', bytes) := c.write step
+      step :: budgetScript fuel c' (budget - bytes.length) dead
+
 def srvStep (s : Srv) (args : List String) : Srv × String :=
   match args with
   | ["new"] => (Srv.new, "ok")
@@ -97,7 +108,7 @@ def srvStep (s : Srv) (args : List String) : Srv × String :=
       let (s', res, effs) := requests s evs
       let dropped := effs.filterMap fun e => match e with | .dropped fd _ => some fd | _ => none
       let refused := effs.filterMap fun e => match e with | .refused fd => some fd | _ => none
-      let tail := s!"{showWrites effs} {showInterest s'} {showFdList "dropped" dropped} {showFdList "refused" refused}"
+      let tail := s!"{showWrites effs} {showInterest s'} {showFdList "dropped" dropped} refused={refused.length}"
       match res with
       | .ok reqs =>
         (s', "ok reqs=[" ++ "|".intercalate (reqs.map fun x => s!"{x.1.fd}:{Request.show x.2}") ++ "] " ++ tail)
@@ -121,6 +132,26 @@ def srvStep (s : Srv) (args : List String) : Srv × String :=
         let (s', r, _) := respond s ⟨fd, inst⟩ (Response.build v c ops)
         (s', (match r with | .ok => "ok" | .underflow => "underflow") ++ " " ++ showInterest s')
     | _, _, _ => (s, "bad-op")
+  | "flushb" :: budgets =>
+    -- `<fd>:<budget>[x]`
+    let parsed := budgets.mapM fun (t : String) =>
+      match t.splitOn ":" with
+      | [fd, b] =>
+        let dead := b.endsWith "x"
+        let b' := if dead then (b.dropEnd 1).toString else b
+        match fd.toNat?, b'.toNat? with
+        | some fd, some n => some (fd, n, dead)
+        | _, _ => none
+      | _ => none
+    match parsed with
+    | none => (s, "bad-op")
+    | some table =>
+      let script (fd : Nat) : List SinkStep :=
+        match table.find? (·.1 = fd), findClient s.conns fd with
+        | some x, some c => budgetScript 4096 c x.2.1 x.2.2
+        | _, _ => []
+      let (s', effs) := flush s script
+      (s', s!"ok {showWrites effs} {showInterest s'}")
   | "flush" :: scripts =>
     -- `<fd>:<w>,<w>,...`
     let parsed := scripts.mapM fun t =>
